@@ -55,7 +55,7 @@ def merge(results):
 
 
 def run_workers(prop, tier, seed, nshards):
-    work = os.path.join(core.VERIF_DIR, '.work', prop)
+    work = os.path.join(os.environ.get('VERIF_WORK_DIR') or os.path.join(core.VERIF_DIR, '.work'), prop)
     shutil.rmtree(work, ignore_errors=True)
     os.makedirs(work)
     env = dict(os.environ)
@@ -102,7 +102,7 @@ def run_workers(prop, tier, seed, nshards):
 
 
 def write_replay(prop, tier, seed, v):
-    d = os.path.join(core.VERIF_DIR, 'replays', prop)
+    d = os.path.join(os.environ.get('VERIF_REPLAY_DIR') or os.path.join(core.VERIF_DIR, 'replays'), prop)
     os.makedirs(d, exist_ok=True)
     name = core.digest([v['key'], v['witness']]) + '.json'
     path = os.path.join(d, name)
@@ -140,8 +140,8 @@ def main(argv=None):
     ap.add_argument('--shards', type=int, default=None)
     args = ap.parse_args(argv)
     prop = args.prop.upper()
+    core.setup_repo_path()
     if args.replay:
-        core.setup_repo_path()
         return do_replay(args.replay)
 
     seed = int(os.environ.get('VERIF_SEED', '0') or 0)
@@ -208,8 +208,9 @@ def main(argv=None):
         'wall_s': round(wall, 2),
         'violations': int(n_new),
     }
-    os.makedirs(os.path.join(core.VERIF_DIR, 'evidence'), exist_ok=True)
-    with open(os.path.join(core.VERIF_DIR, 'evidence', '%s.json' % prop), 'w') as f:
+    evdir = os.environ.get('VERIF_EVIDENCE_DIR') or os.path.join(core.VERIF_DIR, 'evidence')
+    os.makedirs(evdir, exist_ok=True)
+    with open(os.path.join(evdir, '%s.json' % prop), 'w') as f:
         json.dump(evidence, f, indent=1, sort_keys=True)
 
     print('%s %s seed=%d: %d evaluations, %d distinct non-trivial, %d mechanisms violated '
